@@ -66,13 +66,77 @@ theorem auditEntities_clean (s : State) (h : ∀ e ∈ s.ents, trashed s e = fal
       cases ha : e.alive <;> cases hi : e.indb <;> cases hb : blockDefined s e.ref <;> simp_all
     rw [filter_all_false _ _ h1, filter_all_false _ _ h2]; rfl
 
+theorem auditGroup_clean (s : State) (g : Str × Nat × List Nat)
+    (h : g.2.2.all (validMember s) = true ∧ sameLayout s g.2.2 = true ∧ g.2.2.isEmpty = false) :
+    auditGroup s g = g := by
+  have hf : g.2.2.filter (validMember s) = g.2.2 :=
+    filter_all_true _ _ (by simpa [List.all_eq_true] using h.1)
+  simp only [auditGroup, hf, h.2.1, ↓reduceIte]
+
+theorem sum_zero (l : List Nat) (h : ∀ x ∈ l, x = 0) : l.sum = 0 := by
+  induction l with
+  | nil => rfl
+  | cons a t ih =>
+    simp only [List.sum_cons]
+    rw [h a (by simp), ih (fun x hx => h x (by simp [hx]))]
+
+theorem auditGroups_clean (s : State)
+    (h : ∀ g ∈ s.groups, g.2.2.all (validMember s) = true ∧ sameLayout s g.2.2 = true ∧ g.2.2.isEmpty = false) :
+    auditGroups s = s ∧ groupFixes s = 0 := by
+  have hmap : s.groups.map (auditGroup s) = s.groups := by
+    rw [← List.map_id s.groups, List.map_map]
+    apply List.map_congr_left
+    intro g hg
+    simp only [Function.comp_def, id]
+    exact auditGroup_clean s g (h g hg)
+  constructor
+  · unfold auditGroups
+    rw [hmap, filter_all_true _ _ (by intro g hg; simp [(h g hg).2.2])]
+  · unfold groupFixes
+    apply sum_zero
+    intro x hx
+    simp only [List.mem_map] at hx
+    obtain ⟨g, hg, rfl⟩ := hx
+    have hc := h g hg
+    have hf : g.2.2.filter (validMember s) = g.2.2 :=
+      filter_all_true _ _ (by simpa [List.all_eq_true] using hc.1)
+    simp only [auditGroup_clean s g hc, hf, hc.2.1, hc.2.2, Nat.lt_irrefl]
+    simp
+
 /-- no false positives: a clean state is left unchanged and no fix is applied -/
 theorem audit_sound (s : State) (h : AuditClean s) : audit s = (s, 0) := by
   unfold audit
   have h1 := auditSpaces_clean s h.1
   simp only [h1.1, h1.2]
-  have h2 := auditEntities_clean s h.2
+  have hD : dropAll s (orphanBlocks s) = s := by simp [h.2.2.2.1, dropAll]
+  have hL : auditLayouts s = s := by
+    simp only [auditLayouts, hD, restoreActive, h.2.2.2.2, Bool.false_eq_true, ↓reduceIte]
+  have hF : layoutFixes s = 0 := by
+    unfold layoutFixes
+    rw [hD, h.2.2.2.1, h.2.2.2.2]
+    rfl
+  simp only [hL, hF]
+  have h2 := auditEntities_clean s h.2.1
   simp only [h2.1, h2.2]
+  have h3 := auditGroups_clean s h.2.2.1
+  have hmap : s.groups.map (auditGroup s) = s.groups := by
+    rw [← List.map_id s.groups, List.map_map]
+    apply List.map_congr_left
+    intro g hg
+    simp only [Function.comp_def, id]
+    exact auditGroup_clean s g (h.2.2.1 g hg)
+  have h0 : groupFixes0 s = 0 := by
+    unfold groupFixes0
+    apply sum_zero
+    intro x hx
+    simp only [List.mem_map] at hx
+    obtain ⟨g, hg, rfl⟩ := hx
+    have hc := h.2.2.1 g hg
+    have hf : g.2.2.filter (validMember s) = g.2.2 :=
+      filter_all_true _ _ (by simpa [List.all_eq_true] using hc.1)
+    simp [hf, hc.2.1]
+  have hs : ({ s with groups := s.groups } : State) = s := rfl
+  simp only [hmap, hs, h3.1, h3.2, h0]
 
 theorem trashed_auditEntities (s : State) (e : Ent) : trashed (auditEntities s) e = trashed s e := rfl
 
@@ -106,23 +170,212 @@ theorem keepInSpace_auditEntities (s : State) (k h : Nat) (hk : keepInSpace s k 
     · exact Or.inl (killF_alive s e hk)
     · exact Or.inr hk
 
+/-- killing entities (owners untouched) keeps `keepInSpace` -/
+theorem keepInSpace_kill {s s' : State} (g : Ent → Ent) (hE : s'.ents = s.ents.map g)
+    (hg : ∀ x, (g x).h = x.h ∧ (g x).owner = x.owner ∧ ((g x).alive = true → x.alive = true))
+    (k h : Nat) (hk : keepInSpace s k h = true) : keepInSpace s' k h = true := by
+  have hf : findEnt s' h = (findEnt s h).map g := by
+    simp only [findEnt, hE, List.find?_map, Function.comp_def]
+    have : (fun x : Ent => decide ((g x).h = h)) = (fun x : Ent => decide (x.h = h)) := by
+      funext x; rw [(hg x).1]
+    rw [this]
+  unfold keepInSpace isAlive ownerOf at *
+  rw [hf]
+  cases hfe : findEnt s h with
+  | none => simp
+  | some e =>
+    simp only [hfe, Option.map_some, (hg e).2.1] at hk ⊢
+    simp only [Bool.or_eq_true, Bool.not_eq_true', beq_iff_eq] at hk ⊢
+    rcases hk with hk | hk
+    · left
+      cases hga : (g e).alive with
+      | false => rfl
+      | true => rw [(hg e).2.2 hga] at hk; cases hk
+    · exact Or.inr hk
+
+theorem dropContainer_keep (s : State) (br k h : Nat) (hk : keepInSpace s k h = true) :
+    keepInSpace (dropContainer s br) k h = true :=
+  keepInSpace_kill (fun x => if ((spaceOf s br).getD []).contains x.h then { x with alive := false } else x) rfl
+    (fun x => by split <;> simp) k h hk
+
+theorem dropAll_keep : ∀ (l : List Nat) (s : State),
+    (∀ p ∈ s.spaces, ∀ x ∈ p.2, keepInSpace s p.1 x = true) →
+    ∀ p ∈ (dropAll s l).spaces, ∀ x ∈ p.2, keepInSpace (dropAll s l) p.1 x = true
+  | [], _, h => h
+  | a :: r, s, h => by
+    simp only [dropAll, List.foldl_cons]
+    apply dropAll_keep r
+    intro p hp x hx
+    have hp' : p ∈ s.spaces := by
+      simp only [dropContainer, List.mem_filter] at hp; exact hp.1
+    exact dropContainer_keep s a p.1 x (h p hp' x hx)
+
+theorem dropAll_blocks : ∀ (l : List Nat) (s : State),
+    (dropAll s l).blocks = s.blocks.filter (fun b => !l.contains b.2.2) ∧ (dropAll s l).layouts = s.layouts
+  | [], s => by
+    refine ⟨?_, rfl⟩
+    show s.blocks = s.blocks.filter (fun _ => true)
+    exact (filter_all_true _ _ (fun _ _ => rfl)).symm
+  | a :: r, s => by
+    simp only [dropAll, List.foldl_cons]
+    have ih := dropAll_blocks r (dropContainer s a)
+    simp only [dropAll] at ih
+    refine ⟨?_, by rw [ih.2]; rfl⟩
+    rw [ih.1]
+    simp only [dropContainer, List.filter_filter]
+    apply List.filter_congr
+    intro b _
+    by_cases hb : b.2.2 = a
+    · simp [hb]
+    · simp [hb]
+
+/-- after the orphaned paperspace block records are dropped none is left -/
+theorem orphanBlocks_dropAll (s : State) : orphanBlocks (dropAll s (orphanBlocks s)) = [] := by
+  have key : ∀ l, l = orphanBlocks s → orphanBlocks (dropAll s l) = [] := by
+    intro l hl0
+    obtain ⟨hb, hl⟩ := dropAll_blocks l s
+    have hp : pspLayoutBrs (dropAll s l) = pspLayoutBrs s := by
+      simp only [pspLayoutBrs, hl]
+    simp only [orphanBlocks, List.map_eq_nil_iff, List.filter_eq_nil_iff]
+    intro b hbm
+    simp only [hb, List.mem_filter] at hbm
+    intro ho
+    have hio : isOrphan s b = true := by
+      simp only [isOrphan, hp] at ho ⊢; exact ho
+    have : b.2.2 ∈ l := by
+      rw [hl0]
+      simp only [orphanBlocks, List.mem_map, List.mem_filter]
+      exact ⟨b, ⟨hbm.1, hio⟩, rfl⟩
+    simp [this] at hbm
+  exact key _ rfl
+
+theorem restoreCandidate_psp {s : State} {l : Lay} (h : restoreCandidate s = some l) : l.br ∈ pspLayoutBrs s := by
+  have hm := List.mem_of_find?_eq_some h
+  have hp := List.find?_some h
+  simp only [Bool.and_eq_true] at hp
+  simp only [pspLayoutBrs, List.mem_map, List.mem_filter]
+  exact ⟨l, ⟨hm, hp.1⟩, rfl⟩
+
+/-- restoring the active layout renames the block of a paperspace LAYOUT: it creates no orphan -/
+theorem orphanBlocks_restoreActive (s : State) (h : orphanBlocks s = []) : orphanBlocks (restoreActive s) = [] := by
+  unfold restoreActive
+  split
+  · split
+    · rename_i l hl
+      have hpsp := restoreCandidate_psp hl
+      simp only [orphanBlocks, List.map_eq_nil_iff, List.filter_eq_nil_iff] at h ⊢
+      intro b hb
+      have hP : ∀ c, isOrphan { s with blocks := s.blocks.filter (·.2.2 ≠ l.br) ++ [(lower paperSpaceName, paperSpaceName, l.br)] } c
+          = isOrphan s c := fun _ => rfl
+      rw [hP]
+      simp only [List.mem_append, List.mem_filter, List.mem_singleton] at hb
+      rcases hb with hb | rfl
+      · exact h b hb.1
+      · simp only [isOrphan, Bool.and_eq_true, Bool.not_eq_true', not_and]
+        intro _
+        simpa using hpsp
+    · exact h
+  · exact h
+
+theorem orphanBlocks_auditLayouts (s : State) : orphanBlocks (auditLayouts s) = [] :=
+  orphanBlocks_restoreActive _ (orphanBlocks_dropAll s)
+
+theorem blockBr_append_new (bl : List (Str × Str × Nat)) (key name : Str) (br : Nat)
+    (h : (bl.find? (·.1 = key)) = none) :
+    ((bl.filter (·.2.2 ≠ br) ++ [(key, name, br)]).find? (·.1 = key)).map (·.2.2) = some br := by
+  rw [List.find?_append]
+  have : (bl.filter (·.2.2 ≠ br)).find? (·.1 = key) = none := by
+    apply List.find?_eq_none.mpr
+    intro x hx
+    exact List.find?_eq_none.mp h x (List.mem_filter.mp hx).1
+  rw [this]
+  simp
+
+/-- after `restoreActive` nothing is left to restore -/
+theorem needRestore_restoreActive (s : State) : needRestore (restoreActive s) = false := by
+  unfold restoreActive
+  split
+  · rename_i hn
+    split
+    · rename_i l hl
+      simp only [needRestore, Bool.and_eq_true, Option.isNone_iff_eq_none] at hn
+      simp only [needRestore, Bool.and_eq_false_imp, Option.isNone_iff_eq_none]
+      intro hnone
+      exfalso
+      have hfind : s.blocks.find? (·.1 = lower paperSpaceName) = none := by
+        have := hn.1
+        unfold blockBr at this
+        cases hf : s.blocks.find? (·.1 = lower paperSpaceName) with
+        | none => rfl
+        | some b => simp [hf] at this
+      have := blockBr_append_new s.blocks (lower paperSpaceName) paperSpaceName l.br hfind
+      unfold blockBr at hnone
+      rw [this] at hnone
+      cases hnone
+    · rename_i hc
+      simp only [needRestore, Bool.and_eq_true] at hn
+      simp [hc] at hn
+  · rename_i hn
+    simpa using hn
+
+theorem needRestore_congr {s t : State} (hb : t.blocks = s.blocks) (hl : t.layouts = s.layouts) :
+    needRestore t = needRestore s := by
+  simp only [needRestore, restoreCandidate, blockBr, blockName, hb, hl]
+
+/-- what the final group pass keeps is valid, on one layout and non-empty (it does not touch entities) -/
+theorem auditGroups_result (t : State) :
+    ∀ g ∈ (auditGroups t).groups, g.2.2.all (validMember (auditGroups t)) = true ∧
+      sameLayout (auditGroups t) g.2.2 = true ∧ g.2.2.isEmpty = false := by
+  intro g hg
+  simp only [auditGroups, List.mem_filter, List.mem_map] at hg
+  obtain ⟨⟨g0, _, rfl⟩, hne⟩ := hg
+  have hv : ∀ x, validMember (auditGroups t) x = validMember t x := fun _ => rfl
+  have hsl : ∀ l, sameLayout (auditGroups t) l = sameLayout t l := fun _ => rfl
+  rw [hsl]
+  simp only [auditGroup] at hne ⊢
+  split
+  · rename_i hs
+    refine ⟨?_, hs, by simpa [hs] using hne⟩
+    simp only [List.all_eq_true, List.mem_filter]
+    intro x hx; rw [hv]; exact hx.2
+  · rename_i hs
+    simp [hs] at hne
+
 /-- one audit run reaches a fixed point, for EVERY state (any combination of the modelled damage):
     the audited state is clean, hence a second run applies no fix and changes nothing -/
 theorem audit_clean (s : State) : AuditClean (audit s).1 := by
   unfold audit
   simp only
-  constructor
+  refine ⟨?_, ?_, ?_, ?_, ?_⟩
+  rotate_left 2
+  · -- groups: what `auditGroups` keeps is valid, on one layout and non-empty; it does not touch entities
+    exact auditGroups_result _
+  · -- no orphaned paperspace block: entities and groups audits do not touch blocks and layouts
+    show orphanBlocks (auditLayouts (auditSpaces s)) = []
+    exact orphanBlocks_auditLayouts _
+  · -- the active paperspace layout is restored and stays
+    have := needRestore_congr (s := auditLayouts (auditSpaces s))
+      (t := auditGroups { auditEntities (auditLayouts (auditSpaces s)) with groups := List.map (auditGroup s) s.groups }) rfl rfl
+    rw [this]
+    exact needRestore_restoreActive _
   · intro p hp x hx
-    -- spaces of the result are the filtered spaces of `s`
-    have hsp : (auditEntities (auditSpaces s)).spaces = (auditSpaces s).spaces := rfl
-    rw [hsp] at hp
-    simp only [auditSpaces, List.mem_map] at hp
-    obtain ⟨q, hq, rfl⟩ := hp
-    simp only [List.mem_filter] at hx
+    show keepInSpace (auditEntities (auditLayouts (auditSpaces s))) p.1 x = true
+    obtain ⟨bl, hbl⟩ := auditLayouts_eq (auditSpaces s)
+    have hp' : p ∈ (dropAll (auditSpaces s) (orphanBlocks (auditSpaces s))).spaces := by
+      have : p ∈ (auditLayouts (auditSpaces s)).spaces := hp
+      rw [hbl] at this; exact this
     apply keepInSpace_auditEntities
-    -- keepInSpace only looks at `ents`, which auditSpaces leaves alone
-    exact hx.2
+    rw [hbl]
+    show keepInSpace (dropAll (auditSpaces s) (orphanBlocks (auditSpaces s))) p.1 x = true
+    refine dropAll_keep _ (auditSpaces s) ?_ p hp' x hx
+    intro q hq y hy
+    simp only [auditSpaces, List.mem_map] at hq
+    obtain ⟨q0, hq0, rfl⟩ := hq
+    simp only [List.mem_filter] at hy
+    exact hy.2
   · intro e he
+    show trashed (auditEntities (auditLayouts (auditSpaces s))) e = false
+    have he : e ∈ (auditEntities (auditLayouts (auditSpaces s))).ents := he
     simp only [auditEntities, List.mem_map] at he
     obtain ⟨e0, he0, rfl⟩ := he
     rw [trashed_auditEntities]
@@ -134,28 +387,28 @@ theorem audit_clean (s : State) : AuditClean (audit s).1 := by
 theorem audit_fixpoint (s : State) : audit (audit s).1 = ((audit s).1, 0) :=
   audit_sound _ (audit_clean s)
 
-theorem audit_hs (s : State) : hs (audit s).1 = hs s := by
-  show (List.map (killF (auditSpaces s)) (auditSpaces s).ents).map (·.h) = s.ents.map (·.h)
-  exact map_fields_hs _ _ (killF_h _)
-
 /-- the audited document still satisfies the structural invariants (so the C04 theorems about the
     written file apply to it) -/
 theorem audit_inv (s : State) (h : DocInv s) (hb : BInv s) : DocInv (audit s).1 ∧ BInv (audit s).1 := by
   have hh := audit_hs s
-  refine ⟨⟨?_, ?_⟩, ?_⟩
+  have hn : (audit s).1.next = s.next := by
+    obtain ⟨bl, hbl⟩ := auditLayouts_eq (auditSpaces s)
+    show (auditLayouts (auditSpaces s)).next = s.next
+    rw [hbl]
+    exact (dropAll_same (orphanBlocks (auditSpaces s)) (auditSpaces s)).2
+  refine ⟨⟨?_, ?_⟩, audit_BInv s hb⟩
   · unfold HInv at *
-    rw [hh]; exact h.1
-  · rw [hh]
-    show SInv (s.spaces.map (fun p => (p.1, p.2.filter (keepInSpace s p.1)))) (hs s) s.next
-    refine h.2.sub (by simp [keys, List.map_map, Function.comp_def]) ?_
-    clear hh hb
-    induction s.spaces with
-    | nil => simp [allH]
-    | cons p r ih =>
-      simp only [List.map_cons]
-      rw [allH_cons, allH_cons]
-      exact List.Sublist.append List.filter_sublist ih
-  · refine hb.of_same_tables rfl ?_
-    simp [audit, auditEntities, auditSpaces, keys, List.map_map, Function.comp_def]
+    rw [hh, hn]; exact h.1
+  · rw [hh, hn]
+    have h1 : SInv (auditSpaces s).spaces (hs (auditSpaces s)) (auditSpaces s).next :=
+      h.2.sub (by simp [auditSpaces, keys, List.map_map, Function.comp_def]) (by
+        simp only [auditSpaces]; exact allH_mapFilter2_sublist _ _)
+    have h2 := dropAll_SInv (orphanBlocks (auditSpaces s)) (auditSpaces s) h1
+    have hsame := dropAll_same (orphanBlocks (auditSpaces s)) (auditSpaces s)
+    rw [hsame.1, hsame.2] at h2
+    obtain ⟨bl, hbl⟩ := auditLayouts_eq (auditSpaces s)
+    show SInv (auditLayouts (auditSpaces s)).spaces (hs s) s.next
+    rw [hbl]
+    exact h2
 
 end EzdxfVerif.Doc
